@@ -274,7 +274,7 @@ fn methods_block(thorough: bool) -> (VioSink, Tally) {
 }
 
 fn float_texts() -> Vec<&'static str> {
-	vec!["NaN", "inf", "-inf", "0", "-0", "5e-324", "2.220446049250313e-16", "0.5", "0.9999999999999999", "1", "2", "1e300", "-1", "-0.5", "100"]
+	vec!["NaN", "inf", "-inf", "0", "-0", "5e-324", "2.220446049250313e-16", "1e-6", "0.001", "0.5", "0.9999999999999999", "1", "2", "1e300", "-1", "-0.5", "100"]
 }
 
 fn indicators_block(thorough: bool) -> (VioSink, Tally) {
@@ -380,11 +380,14 @@ fn indicators_block(thorough: bool) -> (VioSink, Tally) {
 					ss.push(alt);
 					// zigzag on a steady trend: hundreds of swing highs / lows on one side of every slow average
 					// (peak and trend-length counters of every width have to survive them)
-					for (start, up, down) in [(0.0, 2.0, -1.0), (2000.0, -2.0, 1.0)] {
+					for (start, up, down) in [(0.0, 2.0, -1.0), (2000.0, -2.0, 1.0), (0.0, 0.25, 0.25), (40000.0, -0.25, -0.25)] {
 						let sh = |c: &Candle, d: f64| Candle { open: c.open + d as ValueType, high: c.high + d as ValueType, low: c.low + d as ValueType, close: c.close + d as ValueType, volume: c.volume };
 						let mut z = vec![];
 						let mut off = start;
-						for i in 0..(if thorough && what == "default" { 70_000 } else { 1400 }) {
+						// 70 000 candles (beyond every 16-bit counter) for the default configuration and for every
+						// variant of a float parameter (step sizes / factors decide how long internal counters run)
+						let float_variant = !what.contains(',') && what.split_once('=').map(|(_, v)| v.parse::<f64>().is_ok() && v.parse::<u64>().is_err()).unwrap_or(false);
+						for i in 0..(if (thorough && what == "default") || float_variant { 70_000 } else { 1400 }) {
 							z.push(sh(&ks[1], off));
 							off += if i % 2 == 0 { up } else { down };
 						}
